@@ -16,7 +16,7 @@ func registerExtras() {
 	extrasDone = true
 	propertyRules["C03"] = append(propertyRules["C03"], ruleL1Obl, ruleRefBlock)
 	propertyRules["C01"] = append(propertyRules["C01"], ruleL1Obl)
-	propertyRules["C09"] = append(propertyRules["C09"], ruleResponderWindow)
+	propertyRules["C09"] = append(propertyRules["C09"], ruleResponderWindow, ruleStaleCVRequest)
 	propertyRules["C14"] = append(propertyRules["C14"], ruleDurationSrc)
 	propertyRules["C10"] = append(propertyRules["C10"], ruleDurationSrc)
 	propertyRules["C16"] = append(propertyRules["C16"], ruleBlockStartRef)
@@ -223,5 +223,47 @@ func ruleBlockStartRef(c *RC) *RuleResult {
 		}
 	}
 	c.guardRule(r, sites, c.apiList, func(s *Site, sn *Snap) *Formula { return fRSR() }, nil)
+	return r
+}
+
+// M-STALE-CV-REQUEST: a ChangeView for a view that is not above the receiver's is the cry of a node that fell behind
+// (cut off or restarted): on every such path the ChangeView handler hands the payload to the recovery-request handler.
+func ruleStaleCVRequest(c *RC) *RuleResult {
+	r := &RuleResult{Rule: "M-STALE-CV-REQUEST", Kind: "MUST", Doc: "ChangeView handler: NewViewNumber ≤ current view (both < and =) ⇒ every path reaches the recovery-request handler with that payload"}
+	hs := c.handlers()
+	cv, rr := hs["ChangeViewType"], hs["RecoveryRequestType"]
+	if cv == nil || rr == nil || len(cv.Params) != 1 {
+		r.unresolved("ChangeView handler / recovery-request handler")
+		return r
+	}
+	m := mkTerm(KParam, cv.Params[0].Name())
+	nv := getter("ChangeView", "NewViewNumber", getter("ConsensusMessage", "GetChangeView", m, false), true)
+	for _, sc := range []struct {
+		name string
+		lit  Lit
+	}{
+		{"NewViewNumber == ViewNumber", Lit{mkAtom("eq", nv, tViewNumber), true}},
+		{"NewViewNumber < ViewNumber", Lit{mkAtom("lt", nv, tViewNumber), true}},
+	} {
+		init := newState()
+		init.F.add(sc.lit)
+		exits := c.exitsFrom(cv, init, false)
+		r.Sites++
+		if len(exits) == 0 {
+			r.fail(cv.Name+"/stale:"+sc.name, c.Prog.Pos(cv.Decl), "no path of the ChangeView handler is feasible under "+sc.name)
+			continue
+		}
+		bad := ""
+		for _, e := range exits {
+			if !e.Events["fn:"+rr.Name] {
+				bad = strings.Join(e.Trail, "; ")
+			}
+		}
+		if bad != "" {
+			r.fail(cv.Name+"/stale:"+sc.name, c.Prog.Pos(cv.Decl), "a ChangeView with "+sc.name+" is not treated as a recovery request on path {"+bad+"}: a node that fell behind and keeps asking for the view the others are already in is never sent the recovery message")
+		} else {
+			r.ok(fmt.Sprintf("%s: %s ⇒ %s on all %d paths", cv.Name, sc.name, rr.Name, len(exits)))
+		}
+	}
 	return r
 }
